@@ -144,4 +144,6 @@ struct FamilyRegistrar {
 	explicit FamilyRegistrar(Family* f) { registerFamily(f); }
 };
 
+void processPrelude(); // the first library history of every process (defined with the scenarios)
+
 } // namespace sim
